@@ -350,6 +350,16 @@ class EDXMLParserBase(object):
         # method passing a different ontology, we assign it here.
         self._ontology = ontology
 
+    @staticmethod
+    def __check_entity_references(element):
+        # Entity references are not resolved. A reference that is left in the tree is
+        # not text: the text of an object value would silently end where it starts.
+        if next(element.iter(etree.Entity), None) is not None:
+            raise EDXMLValidationError(
+                'An <%s> element contains an entity reference. EDXML parsers do not resolve entity references.' %
+                etree.QName(element).localname
+            )
+
     def _parse_edxml(self):
 
         self.__parsing = True
@@ -395,6 +405,7 @@ class EDXMLParserBase(object):
                     # ontology element. This is not valid EDXML.
                     raise EDXMLValidationError("Found an <event> element while no <ontology> has been read yet.")
 
+                self.__check_entity_references(elem)
                 self.__parse_event(elem)
 
                 # The first child of the root is always an <ontology> element. We do not
@@ -419,6 +430,8 @@ class EDXMLParserBase(object):
                     # continue parsing.
                     self._check_element_is_event_property(elem)
                     continue
+
+                self.__check_entity_references(elem)
 
                 # Before parsing the ontology information, we validate
                 # the generic structure of the ontology element, using
